@@ -111,6 +111,9 @@ cnb = z3.Function('cnb', Int, Int, ISeq)            # simple graph g: the closed
 nbj = z3.Function('nbj', Int, Int, Int)             # position of v's closed neighbourhood in the duplicate-free list of neighbourhoods
 nbv = z3.Function('nbv', Int, Int, Int)             # a vertex whose closed neighbourhood is the j-th listed one
 isorted = z3.Function('isorted', ISeq, ISeq)        # sorted(X): a function of the list (no schema needed where only its identity matters)
+pairlits = z3.Function('pairlits', Int, ISeq, ISeq)   # [cvar(g, S[p], S[q]) for p < q] in combinations(S, 2) order
+pl1 = z3.Function('pl1', ISeq, Int, Int)              # position p of the t-th pair of combinations(S, 2)
+pl2 = z3.Function('pl2', ISeq, Int, Int)              # position q of the t-th pair
 sqr = z3.Function('sqr', Int, Int)                    # t**2, kept symbolic (only linear facts about squares are used)
 isqf = z3.Function('isqf', Int, Int)                  # int(math.sqrt(w)) as the float library computes it (uninterpreted: floats are not modelled)
 degsum = z3.Function('degsum', Int, Int, Int)             # bipartite graph g: number of edges at the left vertices 1..u (sum of their degrees)         # combinations group (pairs): the variable of the pair {u, v}, u < v
@@ -208,7 +211,7 @@ def cmp_op(op, lhs, rhs):
                  z3.If(op == S('<'), lhs < rhs, z3.If(op == S('>'), lhs > rhs, z3.BoolVal(False))))))
 
 
-FUNCS = dict(sqr=sqr, isqf=isqf, isorted=isorted, cnb=cnb, nbj=nbj, nbv=nbv, pvar=pvar, lnbrs=lnbrs, gadj=gadj, degsum=degsum, cvar=cvar, tlen=tlen, tcoef=tcoef, tlit=tlit, tunit=tunit, tnegc=tnegc, tset=tset, wsum=wsum, thaszero=thaszero,
+FUNCS = dict(pairlits=pairlits, pl1=pl1, pl2=pl2, sqr=sqr, isqf=isqf, isorted=isorted, cnb=cnb, nbj=nbj, nbv=nbv, pvar=pvar, lnbrs=lnbrs, gadj=gadj, degsum=degsum, cvar=cvar, tlen=tlen, tcoef=tcoef, tlit=tlit, tunit=tunit, tnegc=tnegc, tset=tset, wsum=wsum, thaszero=thaszero,
              tmaxabs=tmaxabs, tnonneg=tnonneg, tmpos=tmpos, tzpos=tzpos, mkcon=mkcon, olen=olen, osnoc=osnoc, otake=otake, holds=holds,
              osat=osat, oappc=oappc, omaxabs=omaxabs, ohaszero=ohaszero, onormal=onormal,
              ilen=ilen, iget=iget, inil=inil, isnoc=isnoc, iapp=iapp, ineg=ineg, haszero=haszero,
@@ -505,6 +508,41 @@ def _on_terms(terms_by_decl):
         # CnfSem.lean isnoc_min_max
         out += [z3.Implies(ilen(s_) == 0, z3.And(minof(isnoc(s_, x)) == x, maxof(isnoc(s_, x)) == x)),
                 z3.Implies(ilen(s_) >= 1, z3.And(minof(isnoc(s_, x)) == zmin(minof(s_), x), maxof(isnoc(s_, x)) == zmax(maxof(s_), x)))]
+    for (sq, t_) in terms_by_decl.get('iget', []):
+        if z3.is_app(sq) and sq.decl().name() == 'pairlits':
+            # CnfSem.lean iget_pairlits: the t-th entry is the variable of the t-th pair of positions
+            g_, S_ = sq.children()
+            out.append(z3.Implies(z3.And(0 <= t_, t_ < ilen(sq)),
+                                  z3.And(0 <= pl1(S_, t_), pl1(S_, t_) < pl2(S_, t_), pl2(S_, t_) < ilen(S_),
+                                         iget(sq, t_) == cvar(g_, iget(S_, pl1(S_, t_)), iget(S_, pl2(S_, t_))))))
+    for (g_, S_) in terms_by_decl.get('pairlits', []):
+        # the same facts at the two witness positions (a zero entry, an entry of largest magnitude), spelled out in ONE round so that
+        # "no zero literal / all variables of the formula" follows without deep chains of instance rounds
+        X_ = pairlits(g_, S_)
+        out.append(z3.Implies(haszero(X_), z3.And(0 <= zpos(X_), zpos(X_) < ilen(X_), iget(X_, zpos(X_)) == 0)))        # Seq.lean haszero_witness
+        out.append(z3.Implies(ilen(X_) > 0, z3.And(0 <= mpos(X_), mpos(X_) < ilen(X_), zabs(iget(X_, mpos(X_))) == maxabs(X_))))
+        out.append(z3.Implies(ilen(X_) == 0, maxabs(X_) == 0))
+        for t_ in (zpos(X_), mpos(X_)):
+            p_, q_ = pl1(S_, t_), pl2(S_, t_)
+            out.append(z3.Implies(z3.And(0 <= t_, t_ < ilen(X_)),
+                                  z3.And(0 <= p_, p_ < q_, q_ < ilen(S_), iget(X_, t_) == cvar(g_, iget(S_, p_), iget(S_, q_)))))      # iget_pairlits
+            if z3.is_app(S_) and S_.decl().name() == 'cget' and z3.is_app(S_.arg(0)) and S_.arg(0).decl().name() == 'combs' \
+                    and z3.is_app(S_.arg(0).arg(0)) and S_.arg(0).arg(0).decl().name() == 'apseq':
+                C_, i_ = S_.arg(0), S_.arg(1)
+                st_, n_, k_ = C_.arg(0).arg(0), C_.arg(0).arg(1), C_.arg(1)
+                out.append(z3.Implies(z3.And(k_ >= 0, 0 <= i_, i_ < clen(C_), 0 <= p_, p_ < q_, q_ < ilen(S_)),
+                                      z3.And(st_ <= iget(S_, p_), iget(S_, p_) < iget(S_, q_), iget(S_, q_) < st_ + n_)))             # combs_apseq_sorted
+    # CnfSem.lean combs_apseq_sorted: the subsets of a progression are listed as strictly increasing lists inside it
+    _ig = [(sq, t_) for (sq, t_) in terms_by_decl.get('iget', []) if z3.is_app(sq) and sq.decl().name() == 'cget' and z3.is_app(sq.arg(0))
+           and sq.arg(0).decl().name() == 'combs' and z3.is_app(sq.arg(0).arg(0)) and sq.arg(0).arg(0).decl().name() == 'apseq']
+    for a_ in range(len(_ig)):
+        for b_ in range(len(_ig)):
+            (s1, p_), (s2, q_) = _ig[a_], _ig[b_]
+            if a_ != b_ and s1.eq(s2):
+                C_, i_ = s1.arg(0), s1.arg(1)
+                st_, n_, k_ = C_.arg(0).arg(0), C_.arg(0).arg(1), C_.arg(1)
+                out.append(z3.Implies(z3.And(k_ >= 0, 0 <= i_, i_ < clen(C_), 0 <= p_, p_ < q_, q_ < ilen(s1)),
+                                      z3.And(st_ <= iget(s1, p_), iget(s1, p_) < iget(s1, q_), iget(s1, q_) < st_ + n_)))
     for (t_,) in terms_by_decl.get('sqr', []):
         # linear facts about t*t over the integers (CnfSem.lean sqr_facts): non-negative, zero only at zero, at least |t|
         out += [sqr(t_) >= 0, (sqr(t_) == 0) == (t_ == 0), sqr(t_) >= t_, sqr(t_) >= -t_]
